@@ -6,7 +6,7 @@
 From Coq Require Import List Arith ZArith Bool Lia.
 From MM Require Import lib.ListExtra lib.ListSet lib.Combi lib.Values lib.Assoc model.Heap model.Elig model.SearchParams
   model.SearchDefs model.Search gen.Gen_HeapDict gen.Gen_Search gen.Gen_Exhaustive gen.Gen_Greedy
-  proofs.HeapGen proofs.HeapBridge proofs.SearchBridge proofs.ExhaustiveBridge.
+  proofs.HeapGen proofs.HeapBridge proofs.SearchBridge proofs.ExhaustiveBridge proofs.OrderIsoGreedy.
 Import ListNotations.
 Open Scope Z_scope.
 
@@ -18,21 +18,329 @@ Proof. induction d as [|[k' s'] d IH]; cbn; [reflexivity|]. rewrite IH. reflexiv
 Lemma drop_key_ad_remove (d : list (Z * set)) k : drop_key d k = ad_remove d k.
 Proof. reflexivity. Qed.
 
+(* fuelled loops *)
+Lemma fuel_loop_sim {S1 S2} (R : S1 -> S2 -> Prop) (c1 : S1 -> bool) (b1 : S1 -> S1) (c2 : S2 -> bool) (b2 : S2 -> S2) :
+  (forall a b, R a b -> c1 a = c2 b) -> (forall a b, R a b -> c2 b = true -> R (b1 a) (b2 b)) ->
+  forall fuel a b, R a b ->
+    match fuel_loop c1 b1 fuel a, fuel_loop c2 b2 fuel b with
+    | Some x, Some y => R x y | None, None => True | _, _ => False end.
+Proof.
+  intros Hc Hb. induction fuel as [|f IH]; intros a b Hab; cbn [fuel_loop]; rewrite (Hc a b Hab).
+  - destruct (c2 b); [exact I|exact Hab].
+  - destruct (c2 b) eqn:E; [|exact Hab]. apply IH, Hb; assumption.
+Qed.
+
+(* facts about dictionaries with distinct keys *)
+Lemma dd_get_in (d : list (Z * set)) e : NoDup (map fst d) -> In e d -> dd_get d (fst e) = snd e.
+Proof.
+  induction d as [|[k s] d IH]; cbn [map fst dd_get In]; intros Hn Hin; [destruct Hin|].
+  inversion Hn as [|? ? Hnin Hn']; subst. destruct Hin as [He|He].
+  - subst e. cbn [fst snd]. rewrite Z.eqb_refl. reflexivity.
+  - destruct (Z.eqb_spec k (fst e)) as [E|E]; [|apply IH; assumption].
+    exfalso. apply Hnin. rewrite E. apply in_map, He.
+Qed.
+Lemma ad_remove_keys {B} (d : list (Z * B)) j k : In k (map fst (ad_remove d j)) <-> In k (map fst d) /\ k <> j.
+Proof.
+  unfold ad_remove. induction d as [|[k' v] d IH]; cbn [filter map fst In]; [tauto|].
+  destruct (Z.eqb_spec k' j) as [E|E]; cbn [negb map fst In]; rewrite IH; [subst k'|]; intuition congruence.
+Qed.
+Lemma ad_remove_nodup {B} (d : list (Z * B)) j : NoDup (map fst d) -> NoDup (map fst (ad_remove d j)).
+Proof.
+  unfold ad_remove. induction d as [|[k' v] d IH]; cbn [filter map fst]; intro H; [constructor|].
+  inversion H as [|? ? Hnin Hn]; subst. destruct (Z.eqb_spec k' j); cbn [negb map fst]; [apply IH, Hn|].
+  constructor; [|apply IH, Hn]. intro Hin. apply Hnin. apply (proj1 (ad_remove_keys d j k')) in Hin. tauto.
+Qed.
+Lemma dd_get_ad_remove (d : list (Z * set)) j k : k <> j -> dd_get (ad_remove d j) k = dd_get d k.
+Proof.
+  intro Hne. unfold ad_remove. induction d as [|[k' v] d IH]; cbn [filter dd_get fst]; [reflexivity|].
+  destruct (Z.eqb_spec k' j) as [E|E]; cbn [negb dd_get].
+  - subst k'. destruct (Z.eqb_spec j k); [congruence|exact IH].
+  - rewrite IH. reflexivity.
+Qed.
+Lemma dd_set_keys_nodup (d : list (Z * set)) k v : NoDup (map fst d) -> NoDup (map fst (dd_set d k v)).
+Proof. apply (@HeapBridge.dd_set_nodup nat). Qed.
+
+Lemma spar_eta {V} (p : spar V) :
+  p = {| p_treatment_geos_range := p_treatment_geos_range p; p_control_geos_range := p_control_geos_range p;
+         p_geo_ratio_tolerance := p_geo_ratio_tolerance p; p_volume_ratio_tolerance := p_volume_ratio_tolerance p;
+         p_treatment_share_range := p_treatment_share_range p; p_budget_range := p_budget_range p;
+         p_n_geos_max := p_n_geos_max p; p_n_designs := p_n_designs p; p_iroas := p_iroas p |}.
+Proof. destruct p; reflexivity. Qed.
+
 Section Bridge.
   Context {V K : Type} (O : vops V) (ltk : K -> K -> bool).
   Variables (A : assignments) (par : spar V) (shareS : set -> V) (bud : set -> set -> V)
             (gkey : set -> set -> K) (zero_key : K).
 
-  Notation gpar := (gpar A par).
-  Notation g_trange := (g_trange A par).
-  Notation g_crange := (g_crange A par).
 
   Definition glift (d : design) : @des K := (gkey (fst d) (snd d), (fst d, snd d), (fst d, snd d)).
+
+  Notation cap := (p_n_designs par).
+  Definition gkeyd (d : design) : K := gkey (fst d) (snd d).
+  Lemma key_glift d : des_key (glift d) = gkeyd d.
+  Proof. reflexivity. Qed.
+  (* gen heapdict state vs. the model's single queue *)
+  Definition RhG (hd : @heapdict (@des K)) (h : list design) : Prop :=
+    hd_size hd = cap /\ ((hd_result hd = [] /\ h = []) \/ hd_result hd = [(0%Z, map glift h)]).
+  Lemma RhG_init : RhG (@GenHeapDict.gen_init (@des K) cap) [].
+  Proof. split; [reflexivity|left; split; reflexivity]. Qed.
+  Lemma RhG_push hd h T C :
+    RhG hd h -> RhG (GenHeapDict.gen_push ltk des_key hd 0%Z (gkey T C, (T, C), (T, C))) (push ltk gkeyd cap h (T, C)).
+  Proof.
+    intros [Hs Hr]. rewrite HeapBridge.bridge_push. unfold hd_push, hd_set_result. split; [exact Hs|]. right. cbn [hd_result hd_size].
+    rewrite Hs. change (gkey T C, (T, C), (T, C)) with (glift (T, C)).
+    destruct Hr as [[Hr ->]|Hr]; rewrite Hr; cbn [dd_get dd_set Z.eqb].
+    - change (@nil (@des K)) with (map glift []). rewrite (push_map ltk gkeyd des_key glift key_glift). reflexivity.
+    - rewrite (push_map ltk gkeyd des_key glift key_glift). reflexivity.
+  Qed.
+  Lemma RhG_result hd h : RhG hd h ->
+    dd_get (GenHeapDict.gen_get_result ltk des_key hd) 0%Z = map glift (nlargest_all ltk gkeyd h).
+  Proof.
+    intros [_ [[Hr ->]|Hr]]; unfold GenHeapDict.gen_get_result; cbv zeta; rewrite Hr; cbn; [reflexivity|].
+    unfold nlargest_all. apply (sortd_map ltk gkeyd des_key glift key_glift).
+  Qed.
+
+  Lemma gloop_is_fuel_loop fuel : forall s,
+    gloop O ltk A par shareS bud gkey zero_key fuel s
+    = fuel_loop (gcontinue A par) (gstep O ltk A par shareS bud gkey zero_key) fuel s.
+  Proof. induction fuel as [|f IH]; intro s; cbn [gloop fuel_loop]; [reflexivity|]. rewrite IH. reflexivity. Qed.
+
+  (* state of the translated loop vs. the model's record *)
+  Definition Rst (st : set * list (Z * list nat) * list (Z * K) * bool * list (Z * list nat) * nat) (s : gstate) : Prop :=
+    let '(ctl, sctl, sc, nm, strt, k) := st in
+    gs_k s = Z.of_nat k /\ gs_needs_matching s = nm /\ gs_ctl s = ctl /\ gs_star_trt s = strt /\ gs_star_ctl s = sctl /\
+    NoDup (map fst strt).
+
+  (* the model's scan steps *)
+  Definition mstep (k : Z) (T ctl : set) (acc : set * K) (g : nat) : set * K :=
+    let nb := toggle g ctl in
+    if candidate_ok O A par shareS bud k T nb then (if ltk (snd acc) (gkey T nb) then (nb, gkey T nb) else acc) else acc.
+  Lemma match_scan_ext (f : set * K -> nat -> set * K) k T ctl :
+    (forall acc g, f acc g = mstep k T ctl acc g) ->
+    fold_left f (ascending (union (diff (a_c A) (union ctl T)) (diff (inter ctl (a_x A)) T))) (ctl, gkey T ctl)
+    = match_scan O ltk A par shareS bud gkey k T ctl.
+  Proof. intro H. unfold match_scan. cbv zeta. apply fold_ext. exact H. Qed.
+
+  Lemma augment_scan_rel (f : set * set * K -> nat -> set * set * K) k T cstar ctl0 :
+    (forall c t sc g, f (c, t, sc) g =
+       if candidate_ok O A par shareS bud k (union T [g]) (diff cstar [g])
+       then (if ltk sc (gkey (union T [g]) (diff cstar [g])) then (diff cstar [g], union T [g], gkey (union T [g]) (diff cstar [g])) else (c, t, sc))
+       else (c, t, sc)) ->
+    snd (fst (fold_left f (ascending (diff (a_t A) T)) (ctl0, T, zero_key)))
+      = fst (fst (fst (augment_scan O ltk A par shareS bud gkey zero_key k T cstar))) /\
+    fst (fst (fold_left f (ascending (diff (a_t A) T)) (ctl0, T, zero_key)))
+      = (if snd (augment_scan O ltk A par shareS bud gkey zero_key k T cstar)
+         then snd (fst (fst (augment_scan O ltk A par shareS bud gkey zero_key k T cstar))) else ctl0).
+  Proof.
+    intro H. unfold augment_scan.
+    match goal with |- context [fold_left ?g (ascending (diff (a_t A) T)) (T, [], zero_key, false)] =>
+      pose proof (fold_rel (fun (a : set * set * K) (b : set * set * K * bool) =>
+             snd (fst a) = fst (fst (fst b)) /\ fst (fst a) = (if snd b then snd (fst (fst b)) else ctl0) /\ snd a = snd (fst b))
+          f g (ascending (diff (a_t A) T))) as HR end.
+    destruct (HR) with (a := (ctl0, T, zero_key)) (b := (T, @nil nat, zero_key, false)) as (H1 & H2 & _).
+    - intros [[c t] sc] [[[au up] kk] acc] g (H1 & H2 & H3). cbn [fst snd] in *. subst. rewrite H.
+      destruct (candidate_ok O A par shareS bud k (union T [g]) (diff cstar [g])); [|repeat split; reflexivity].
+      destruct (ltk kk (gkey (union T [g]) (diff cstar [g]))); cbn [fst snd]; repeat split; reflexivity.
+    - cbn [fst snd]. repeat split; reflexivity.
+    - split; assumption.
+  Qed.
+
+  (* the final filter *)
+  Definition mfinal_step (ctl0 : list (Z * set)) (h : list design) (e : Z * set) : list design :=
+    let T := snd e in
+    let C := lookup ctl0 (fst e) in
+    if gwithin O A par shareS T C && negb (budget_out O par (bud T C)) then push ltk gkeyd cap h (T, C) else h.
+  Lemma final_fold {S : Type} (pr : S -> @heapdict (@des K)) (f : S -> Z -> S) (trt' ctl' ctl0 : list (Z * set)) :
+    (forall a k, pr (f a k) =
+       if gwithin O A par shareS (dd_get trt' k) (dd_get ctl' k) && negb (budget_out O par (bud (dd_get trt' k) (dd_get ctl' k)))
+       then GenHeapDict.gen_push ltk des_key (pr a) 0
+              (gkey (dd_get trt' k) (dd_get ctl' k), (dd_get trt' k, dd_get ctl' k), (dd_get trt' k, dd_get ctl' k))
+       else pr a) ->
+    forall l, (forall e, In e l -> dd_get trt' (fst e) = snd e /\ dd_get ctl' (fst e) = dd_get ctl0 (fst e)) ->
+    forall a h, RhG (pr a) h -> RhG (pr (fold_left f (map fst l) a)) (fold_left (mfinal_step ctl0) l h).
+  Proof.
+    intros Hf l. induction l as [|e l IH]; intros Hl a h HR; cbn [map fold_left]; [exact HR|].
+    apply IH; [intros e' He'; apply Hl; right; exact He'|].
+    rewrite Hf. unfold mfinal_step. cbv zeta. destruct (Hl e (or_introl eq_refl)) as [E1 E2].
+    change (lookup ctl0 (fst e)) with (dd_get ctl0 (fst e)). rewrite E1, E2.
+    match goal with |- RhG (if ?c then _ else _) (if ?c' then _ else _) => change c' with c; destruct c end;
+      [apply RhG_push|]; exact HR.
+  Qed.
+
+  Ltac proj := cbn [p_treatment_geos_range p_control_geos_range p_geo_ratio_tolerance p_volume_ratio_tolerance
+                    p_treatment_share_range p_budget_range p_n_geos_max p_n_designs p_iroas].
+
+  (* entries of a dictionary from which keys were popped *)
+  Lemma popped_entries (strt sctl : list (Z * set)) (js : list Z) :
+    NoDup (map fst strt) ->
+    let pop := fun (d : list (Z * set)) => fold_left (fun d j => ad_remove d j) js d in
+    forall e, In e (pop strt) -> dd_get (pop strt) (fst e) = snd e /\ dd_get (pop sctl) (fst e) = dd_get sctl (fst e).
+  Proof.
+    cbv zeta. revert strt sctl. induction js as [|j js IH]; intros strt sctl Hnd e He; cbn [fold_left] in *.
+    - split; [apply dd_get_in; assumption|reflexivity].
+    - destruct (IH (ad_remove strt j) (ad_remove sctl j) (ad_remove_nodup strt j Hnd) e He) as [H1 H2]. split; [exact H1|].
+      rewrite H2. apply dd_get_ad_remove.
+      assert (Hin : In (fst e) (map fst (ad_remove strt j))).
+      { clear -He. revert He. generalize (ad_remove strt j). induction js as [|j' js IH']; intros d He; cbn [fold_left] in He.
+        - apply in_map, He.
+        - apply IH' in He. apply (proj1 (ad_remove_keys d j' (fst e))) in He. tauto. }
+      apply (proj1 (ad_remove_keys strt j (fst e))) in Hin. tauto.
+  Qed.
+
+  Ltac atoms :=
+    repeat match goal with
+           | |- context [within ?a ?b ?c ?d ?e ?f] => destruct (within a b c d e f)
+           | |- context [not_satisfied ?a ?b ?c ?d] => destruct (not_satisfied a b c d)
+           | |- context [is_nil ?x] => destruct (is_nil x)
+           | |- context [ltk ?x ?y] => destruct (ltk x y)
+           | |- context [andb (Z.leb ?x ?y) (Z.leb ?z ?w)] => destruct (andb (Z.leb x y) (Z.leb z w))
+           end; cbn [negb andb orb]; try reflexivity.
+
+  (* one iteration of the translated loop is one step of the model *)
+  Ltac body_tac Ht Hc Hp Hm :=
+    let ctl := fresh "ctl" in let sctl := fresh "sctl" in let sc := fresh "sc" in let nm := fresh "nm" in
+    let strt := fresh "strt" in let k := fresh "k" in let s := fresh "s" in
+    let Hk := fresh "Hk" in let Hn := fresh "Hn" in let Hc' := fresh "Hc'" in let Ht' := fresh "Ht'" in
+    let Hs' := fresh "Hs'" in let Hnd := fresh "Hnd" in let Hcont := fresh "Hcont" in
+    intros [[[[[ctl sctl] sc] nm] strt] k] s (Hk & Hn & Hc' & Ht' & Hs' & Hnd) Hcont;
+    unfold gcontinue in Hcont; rewrite Hk, Hn, Hm in Hcont;
+    unfold gstep; cbv zeta; rewrite Hn, Hk, Hc', Ht', Hs'; cbn [fst snd];
+    change (lookup strt (Z.of_nat k)) with (dd_get strt (Z.of_nat k)); change (lookup sctl (Z.of_nat k)) with (dd_get sctl (Z.of_nat k));
+    destruct nm;
+    [ rewrite (match_scan_ext _ (Z.of_nat k) (dd_get strt (Z.of_nat k)) ctl);
+      [ destruct (match_scan O ltk A par shareS bud gkey (Z.of_nat k) (dd_get strt (Z.of_nat k)) ctl) as [best bk];
+        destruct (ltk (gkey (dd_get strt (Z.of_nat k)) ctl) bk); unfold Rst; cbn [gs_k gs_needs_matching gs_ctl gs_star_trt gs_star_ctl];
+        rewrite ?store_dd_set; repeat split; try reflexivity; exact Hnd
+      | intros [tmp cs] g; unfold mstep, candidate_ok, gwithin, budget_out, u_design_within_constraints, zlen;
+        rewrite Ht, Hc, Hp, bridge_within, Z.geb_leb; cbn [fst snd];
+        destruct (p_budget_range par) as [br|]; rewrite ?bridge_not_satisfied; atoms ]
+    | cbn [orb] in Hcont; rewrite Bool.orb_false_r in Hcont; rewrite Hcont;
+      let HA := fresh "HA" in let HA1 := fresh "HA1" in let HA2 := fresh "HA2" in
+      match goal with |- context [fold_left ?F (ascending (diff (a_t A) (dd_get strt (Z.of_nat k)))) (ctl, dd_get strt (Z.of_nat k), zero_key)] =>
+        pose proof (augment_scan_rel F (Z.of_nat k) (dd_get strt (Z.of_nat k)) (dd_get sctl (Z.of_nat k)) ctl) as HA end;
+      destruct HA as [HA1 HA2];
+      [ intros c t scr g; unfold candidate_ok, gwithin, budget_out, u_design_within_constraints, zlen;
+        rewrite Ht, Hc, Hp, bridge_within, Z.geb_leb; cbn [fst snd];
+        destruct (p_budget_range par) as [br|]; rewrite ?bridge_not_satisfied; atoms
+      | match goal with |- context [@fold_left ?TA ?TB ?F ?L ?I] =>
+          match type of HA1 with context [@fold_left ?TA2 ?TB2 ?F2 ?L2 ?I2] =>
+            change (@fold_left TA2 TB2 F2 L2 I2) with (@fold_left TA TB F L I) in HA1, HA2 end;
+          revert HA1 HA2; destruct (@fold_left TA TB F L I) as [[c1 t1] k1] end;
+        destruct (augment_scan O ltk A par shareS bud gkey zero_key (Z.of_nat k) (dd_get strt (Z.of_nat k)) (dd_get sctl (Z.of_nat k)))
+          as [[[au up] ak] acc];
+        intros HA1 HA2; cbn [fst snd] in HA1, HA2; rewrite HA1, HA2;
+        unfold Rst; cbn [gs_k gs_needs_matching gs_ctl gs_star_trt gs_star_ctl];
+        rewrite store_dd_set, Nat2Z.inj_add; repeat split; try reflexivity; apply dd_set_keys_nodup, Hnd ] ].
+
+  (* the final filter of the translated code is the model's gfinal *)
+  Ltac final_tac Hp st1 Hsim :=
+    let ctl := fresh "ctl" in let sctl := fresh "sctl" in let sc := fresh "sc" in let nm := fresh "nm" in
+    let strt := fresh "strt" in let k := fresh "k" in
+    let Hk := fresh "Hk" in let Hn := fresh "Hn" in let Hc' := fresh "Hc'" in let Ht' := fresh "Ht'" in
+    let Hs' := fresh "Hs'" in let Hnd := fresh "Hnd" in let Ew := fresh "Ew" in let Eb := fresh "Eb" in let Ebud := fresh "Ebud" in
+    destruct st1 as [[[[[ctl sctl] sc] nm] strt] k]; destruct Hsim as (Hk & Hn & Hc' & Ht' & Hs' & Hnd);
+    cbn [option_map]; f_equal; unfold gfinal; cbv zeta; rewrite Ht', Hs'; unfold zlen;
+    change (lookup strt (Z.of_nat (length (a_t_fixed A)))) with (dd_get strt (Z.of_nat (length (a_t_fixed A))));
+    change (lookup sctl (Z.of_nat (length (a_t_fixed A)))) with (dd_get sctl (Z.of_nat (length (a_t_fixed A))));
+    cbn [fst snd]; rewrite Z.gtb_ltb, !Bool.negb_involutive; unfold u_design_within_constraints; rewrite !bridge_within;
+    destruct (gwithin O A par shareS (dd_get strt (Z.of_nat (length (a_t_fixed A)))) (dd_get sctl (Z.of_nat (length (a_t_fixed A))))) eqn:Ew;
+    unfold gwithin in Ew; rewrite Hp in Ew; rewrite Ew; clear Ew;
+    (destruct (budget_out O par (bud (dd_get strt (Z.of_nat (length (a_t_fixed A)))) (dd_get sctl (Z.of_nat (length (a_t_fixed A)))))) eqn:Eb;
+     unfold budget_out in Eb);
+    (destruct (p_budget_range par) as [br|] eqn:Ebud; try discriminate Eb; rewrite ?bridge_not_satisfied, ?Eb; clear Eb);
+    (destruct (0 <? Z.of_nat (length (a_t_fixed A))); destruct (is_nil (dd_get sctl (Z.of_nat (length (a_t_fixed A))))); cbn [negb andb orb]);
+    (let HL := fresh "HL" in
+     match goal with
+     | |- dd_get (let '(_, r) := @fold_left ?TA ?TB ?F (map fst ?L) ?I in _) 0 = _ =>
+         assert (HL : RhG (snd (@fold_left TA TB F (map fst L) I)) (fold_left (mfinal_step sctl) L []));
+         [ | destruct (@fold_left TA TB F (map fst L) I) as [v r]; cbn [snd] in HL; apply RhG_result in HL; exact HL ]
+     | |- dd_get (GenHeapDict.gen_get_result _ _ (@fold_left ?TA ?TB ?F (map fst ?L) ?I)) 0 = _ =>
+         assert (HL : RhG ((fun x => x) (@fold_left TA TB F (map fst L) I)) (fold_left (mfinal_step sctl) L []));
+         [ | cbv beta in HL; apply RhG_result in HL; exact HL ]
+     end);
+    (match goal with
+     | |- RhG (?pr (fold_left ?F (map fst (ad_remove (ad_remove ?st ?kp) 0)) _)) (fold_left (mfinal_step ?sc) _ _) =>
+         apply (final_fold pr F (ad_remove (ad_remove st kp) 0) (ad_remove (ad_remove sc kp) 0) sc);
+         [ | exact (popped_entries st sc [kp; 0] Hnd) | apply RhG_init ]
+     | |- RhG (?pr (fold_left ?F (map fst (ad_remove ?st 0)) _)) (fold_left (mfinal_step ?sc) _ _) =>
+         apply (final_fold pr F (ad_remove st 0) (ad_remove sc 0) sc);
+         [ | exact (popped_entries st sc [0] Hnd) | apply RhG_init ]
+     | |- RhG (fold_left ?F (map fst (ad_remove (ad_remove ?st ?kp) 0)) _) (fold_left (mfinal_step ?sc) _ _) =>
+         apply (final_fold (fun x => x) F (ad_remove (ad_remove st kp) 0) (ad_remove (ad_remove sc kp) 0) sc);
+         [ | exact (popped_entries st sc [kp; 0] Hnd) | apply RhG_init ]
+     | |- RhG (fold_left ?F (map fst (ad_remove ?st 0)) _) (fold_left (mfinal_step ?sc) _ _) =>
+         apply (final_fold (fun x => x) F (ad_remove st 0) (ad_remove sc 0) sc);
+         [ | exact (popped_entries st sc [0] Hnd) | apply RhG_init ]
+     end);
+    (let a := fresh "a" in let kk := fresh "kk" in
+     intros a kk; try destruct a as [v hd]; cbn [snd]; unfold gwithin, budget_out;
+     rewrite Hp, ?Ebud, ?bridge_within, ?bridge_not_satisfied; cbn [fst snd];
+     repeat match goal with
+            | |- context [within ?a ?b ?c ?d ?e ?f] => destruct (within a b c d e f)
+            | |- context [not_satisfied ?a ?b ?c ?d] => destruct (not_satisfied a b c d)
+            end; reflexivity).
 
   Theorem gen_greedy_is_model fuel :
     option_map (fun r => dd_get r 0) (gen_greedy_search O ltk A par shareS bud gkey zero_key fuel)
     = option_map (map glift) (greedy O ltk A par shareS bud gkey zero_key fuel).
   Proof.
     unfold gen_greedy_search, greedy. cbv zeta.
-  Abort.
+    destruct (p_treatment_geos_range par) as [tr|] eqn:Et; cbv beta iota; proj;
+      destruct (p_control_geos_range par) as [cr|] eqn:Ec; cbv beta iota; proj.
+    all: rewrite ?Et, ?Ec.
+    all: assert (Ht := eq_refl (g_trange A par)); unfold Search.g_trange at 2 in Ht; rewrite Et in Ht; unfold zlen in Ht.
+    all: assert (Hc := eq_refl (g_crange A par)); unfold Search.g_crange at 2 in Hc; rewrite Ec in Hc; unfold zlen in Hc.
+    all: assert (Hm : max_tsize A par = snd (g_trange A par)) by reflexivity; rewrite Ht in Hm; cbn [snd] in Hm.
+    all: assert (Hp := eq_refl (gpar A par)); unfold Search.gpar at 2 in Hp; rewrite Ht, Hc in Hp.
+    1: rewrite <- Et, <- Ec, <- (spar_eta par) in Hp.
+    all: destruct (Z.of_nat (length (a_t_fixed A)) =? 0) eqn:Ek; cbv beta iota.
+    all: rewrite gloop_is_fuel_loop.
+    all: match goal with |- context [@fuel_loop gstate ?c2 ?b2 ?fu ?i2] =>
+           match goal with |- context [@fuel_loop (_ * _) ?c1 ?b1 ?fu ?i1] =>
+             pose proof (fuel_loop_sim Rst c1 b1 c2 b2) as Hsim;
+             assert (Hinit : Rst i1 i2);
+             [ unfold Rst, ginit, zlen; cbn [gs_k gs_needs_matching gs_ctl gs_star_trt gs_star_ctl dd_set]; rewrite Ek; cbn [negb];
+               try (apply Z.eqb_eq in Ek; rewrite Ek); repeat split; try reflexivity; repeat constructor; intros [] |
+             assert (Hcond : forall a b, Rst a b -> c1 a = c2 b);
+             [ intros [[[[[ctl sctl] sc] nm] strt] k] s (Hk & Hn & _); unfold gcontinue; rewrite Hk, Hn, Hm; reflexivity |
+             assert (Hbody : forall a b, Rst a b -> c2 b = true -> Rst (b1 a) (b2 b)); [ clear Hsim Hcond Hinit; body_tac Ht Hc Hp Hm |
+             specialize (Hsim Hcond Hbody fu i1 i2 Hinit); clear Hcond Hbody Hinit;
+             destruct (fuel_loop c1 b1 fu i1) as [st1|]; destruct (fuel_loop c2 b2 fu i2) as [s2|];
+             try contradiction; [final_tac Hp st1 Hsim|reflexivity]]]]
+           end end.
+  Qed.
+
+  (* the groups of the designs the translated code returns are the model's designs, in the same order *)
+  Theorem gen_greedy_groups fuel :
+    option_map (fun r => map (@des_groups K) (dd_get r 0)) (gen_greedy_search O ltk A par shareS bud gkey zero_key fuel)
+    = greedy O ltk A par shareS bud gkey zero_key fuel.
+  Proof.
+    pose proof (gen_greedy_is_model fuel) as H.
+    destruct (gen_greedy_search O ltk A par shareS bud gkey zero_key fuel) as [r|];
+      destruct (greedy O ltk A par shareS bud gkey zero_key fuel) as [ds|]; cbn [option_map] in *; try discriminate; [|reflexivity].
+    injection H as H. rewrite H, map_map. f_equal. erewrite map_ext; [apply map_id|]. intros [T C]. reflexivity.
+  Qed.
+  Lemma gen_greedy_in fuel r d :
+    gen_greedy_search O ltk A par shareS bud gkey zero_key fuel = Some r -> In d (dd_get r 0) ->
+    exists ds, greedy O ltk A par shareS bud gkey zero_key fuel = Some ds /\ In (des_groups d) ds.
+  Proof.
+    intros Hr Hd. pose proof (gen_greedy_groups fuel) as H. rewrite Hr in H. cbn [option_map] in H.
+    eexists. split; [symmetry; exact H|]. apply in_map, Hd.
+  Qed.
+  (* each stored design carries the series of its own groups and their score *)
+  Lemma gen_greedy_designs_own_their_diag fuel r d :
+    gen_greedy_search O ltk A par shareS bud gkey zero_key fuel = Some r -> In d (dd_get r 0) ->
+    snd d = snd (fst d) /\ fst (fst d) = gkey (fst (snd (fst d))) (snd (snd (fst d))).
+  Proof.
+    intros Hr Hd. pose proof (gen_greedy_is_model fuel) as H. rewrite Hr in H. cbn [option_map] in H.
+    destruct (greedy O ltk A par shareS bud gkey zero_key fuel) as [ds|]; [|discriminate]. injection H as H.
+    rewrite H in Hd. apply in_map_iff in Hd. destruct Hd as [[T C] [<- _]]. split; reflexivity.
+  Qed.
+  Lemma gen_greedy_none_iff fuel :
+    gen_greedy_search O ltk A par shareS bud gkey zero_key fuel = None <-> greedy O ltk A par shareS bud gkey zero_key fuel = None.
+  Proof.
+    pose proof (gen_greedy_groups fuel) as H.
+    destruct (gen_greedy_search O ltk A par shareS bud gkey zero_key fuel); destruct (greedy O ltk A par shareS bud gkey zero_key fuel);
+      cbn in H; split; intro; congruence.
+  Qed.
 End Bridge.
